@@ -82,17 +82,18 @@ Section SortPtrProofs.
   Qed.
 
   (* the do-while loop on the node positions is that partition, in place *)
-  Lemma qs_loop_spec pre pv post : forall rest fuel less geq a left right p0 p1 p2,
+  Lemma qs_loop_spec pre pv post : forall rest fuel less geq a left right p0 p1 p2 nl no,
       rest <> [] -> length rest <= fuel ->
       a = pre ++ pv :: less ++ geq ++ rest ++ post ->
       left = length pre -> p1 = left + length less -> p2 = p1 + length geq -> right = p2 + length rest ->
-      p0 = left + pred (length less) ->
-      qs_loop key fuel left right a p0 p1 p2 =
+      p0 = left + pred (length less) -> nl = length less -> no = length geq ->
+      qs_loop key fuel left right a p0 p1 p2 nl no =
       (let '(less', geq') := part_l pv less geq rest in
-       Some (pre ++ pv :: less' ++ geq' ++ post, left + pred (length less'), left + length less')).
+       Some (pre ++ pv :: less' ++ geq' ++ post, left + pred (length less'), left + length less',
+             length less', length geq')).
   Proof.
-    induction rest as [|x r IH]; intros fuel less geq a left right p0 p1 p2 Hne Hf Ha Hl H1 H2 Hr H0; [congruence|].
-    destruct fuel as [|f]; [cbn [length] in Hf; lia|]. cbn [qs_loop part_l].
+    induction rest as [|x r IH]; intros fuel less geq a left right p0 p1 p2 nl no Hne Hf Ha Hl H1 H2 Hr H0 Hnl Hno; [congruence|].
+    subst nl no. destruct fuel as [|f]; [cbn [length] in Hf; lia|]. cbn [qs_loop part_l].
     assert (Hx : nth (S p2) a 0%Z = x).
     { rewrite Ha. replace (pre ++ pv :: less ++ geq ++ (x :: r) ++ post)
         with ((pre ++ pv :: less ++ geq) ++ x :: r ++ post) by (lnorm; reflexivity).
@@ -108,7 +109,7 @@ Section SortPtrProofs.
       + (* no element >= pivot so far: ptr1 and ptr2 are the same node *)
         assert (S p1 = S p2) as -> by (cbn [length] in H2; lia). rewrite swap_at_same.
         destruct r as [|y r'].
-        * cbn [part_l]. rewrite Ha. rewrite app_length. cbn [length app] in *. rewrite <- !app_assoc.
+        * cbn [part_l]. rewrite Ha. rewrite !app_length. cbn [length app] in *. rewrite <- !app_assoc.
           repeat f_equal; lia.
         * apply IH; try (cbn [length] in *; rewrite ?app_length; cbn [length]; lia); [discriminate|].
           rewrite Ha. cbn [app]. rewrite <- !app_assoc. reflexivity.
@@ -120,11 +121,11 @@ Section SortPtrProofs.
           rewrite swap_at_apart; try (rewrite app_length; cbn [length] in *; lia).
           lnorm. reflexivity. }
         rewrite Hs. destruct r as [|y r'].
-        * cbn [part_l]. rewrite app_length. cbn [length] in *. repeat f_equal; lia.
+        * cbn [part_l]. rewrite !app_length. cbn [length] in *. repeat f_equal; lia.
         * apply IH; try (cbn [length] in *; rewrite ?app_length; cbn [length]; lia); [discriminate|reflexivity].
     - (* x >= pivot: only ptr2 moves *)
       destruct r as [|y r'].
-      + cbn [part_l]. rewrite Ha, H0, H1. lnorm. reflexivity.
+      + cbn [part_l]. rewrite Ha, H0, H1. rewrite !app_length. cbn [length]. lnorm. repeat f_equal; lia.
       + apply IH; try (cbn [length] in *; rewrite ?app_length; cbn [length]; lia); [discriminate|].
         rewrite Ha. lnorm. reflexivity.
   Qed.
@@ -146,24 +147,34 @@ Section SortPtrProofs.
     rewrite E in H. inversion H; subst. symmetry. apply Permutation_length. exact P.
   Qed.
 
-  (* sort(left, right) on the nodes left..right = the value-level quicksort on their values;
-     nothing outside left..right is touched *)
+  Lemma qdepth_unfold f p y rest' :
+      qdepth key (S f) (p :: y :: rest') =
+      (let '(lessr, geq) := part key p [] [] [] (y :: rest') in
+       let left := left_of lessr in
+       let dl := if Nat.leb 2 (length left) then qdepth key f left else O in
+       let dg := if Nat.leb 2 (length geq) then qdepth key f geq else O in
+       if Nat.ltb (length left) (length geq) then Nat.max (S dl) dg else Nat.max (S dg) dl).
+  Proof. reflexivity. Qed.
+
+  (* sort(left, right) on the nodes left..right = the value-level quicksort on their values, whichever
+     side is sorted first; nothing outside left..right is touched; the number of live frames is qdepth *)
   Lemma qs_sort_refines : forall fuel pre seg post,
       2 <= length seg -> length seg <= fuel ->
       qs_sort key fuel (length pre) (length pre + length seg - 1) (pre ++ seg ++ post) =
-      option_map (fun r => pre ++ r ++ post) (qsort key fuel seg).
+      option_map (fun r => (pre ++ r ++ post, qdepth key fuel seg)) (qsort key fuel seg).
   Proof.
     induction fuel as [|f IH]; intros pre seg post H2 Hf; [lia|].
     destruct seg as [|p [|y rest']]; cbn [length] in H2; try lia.
-    rewrite qsort_unfold.
+    rewrite qsort_unfold, qdepth_unfold.
     remember (y :: rest') as rest eqn:Hrest.
     rewrite part_part_l. cbn [rev app].
     assert (Hrl : length rest = S (length rest')) by (subst rest; reflexivity).
     cbn [qs_sort app length].
     assert (HL : qs_loop key (length (pre ++ p :: rest ++ post)) (length pre) (length pre + S (length rest) - 1)
-                   (pre ++ p :: rest ++ post) (length pre) (length pre) (length pre)
+                   (pre ++ p :: rest ++ post) (length pre) (length pre) (length pre) 0 0
                  = (let '(less', geq') := part_l p [] [] rest in
-                    Some (pre ++ p :: less' ++ geq' ++ post, length pre + pred (length less'), length pre + length less'))).
+                    Some (pre ++ p :: less' ++ geq' ++ post, length pre + pred (length less'), length pre + length less',
+                          length less', length geq'))).
     { apply (qs_loop_spec pre p post rest _ [] []); cbn [length app]; rewrite ?app_length; cbn [length];
         rewrite ?app_length; try lia; try reflexivity. subst rest; discriminate. }
     rewrite HL. clear HL.
@@ -183,46 +194,118 @@ Section SortPtrProofs.
         + cbn [length]. rewrite app_length. cbn [length]. lia. }
     destruct Hswap as (Hswap & Hll). rewrite Hswap. clear Hswap.
     set (L := left_of (rev less)) in *.
-    (* left part *)
-    assert (HA : (if Nat.eqb (length pre) (length pre + pred (length less))
-                  then Some (pre ++ L ++ p :: geq ++ post)
-                  else qs_sort key f (length pre) (length pre + pred (length less)) (pre ++ L ++ p :: geq ++ post))
-                 = option_map (fun a => pre ++ a ++ p :: geq ++ post)
-                     (if Nat.leb 2 (length L) then qsort key f L else Some L)).
-    { rewrite Hll. destruct (Nat.leb 2 (length less)) eqn:E.
+    set (p0 := length pre + pred (length less)).
+    set (p1 := length pre + length less).
+    set (right := length pre + S (length rest) - 1).
+    set (p1' := if Nat.eqb p1 right then p1 else S p1).
+    set (left := length pre).
+    set (dl := if Nat.leb 2 (length L) then qdepth key f L else 0).
+    set (dg := if Nat.leb 2 (length geq) then qdepth key f geq else 0).
+    (* sort(left, ptr0), whatever stands behind the pivot *)
+    assert (HA : forall G,
+               (if Nat.eqb left p0 then Some (pre ++ L ++ p :: G, 0) else qs_sort key f left p0 (pre ++ L ++ p :: G))
+               = option_map (fun a => (pre ++ a ++ p :: G, dl))
+                   (if Nat.leb 2 (length L) then qsort key f L else Some L)).
+    { intros G. unfold dl, left, p0. rewrite Hll. destruct (Nat.leb 2 (length less)) eqn:E.
       - apply Nat.leb_le in E. assert (Nat.eqb (length pre) (length pre + pred (length less)) = false) as ->
           by (apply Nat.eqb_neq; lia).
         replace (length pre + pred (length less)) with (length pre + length L - 1) by lia.
-        apply (IH pre L (p :: geq ++ post)); lia.
+        rewrite (IH pre L (p :: G)) by lia. destruct (qsort key f L); reflexivity.
       - apply Nat.leb_gt in E. assert (Nat.eqb (length pre) (length pre + pred (length less)) = true) as ->
           by (apply Nat.eqb_eq; lia).
         reflexivity. }
-    rewrite HA. clear HA.
-    destruct (if Nat.leb 2 (length L) then qsort key f L else Some L) as [a|] eqn:EA; cbn [option_map]; [|reflexivity].
-    assert (Hla : length a = length less).
-    { rewrite <- Hll. destruct (Nat.leb 2 (length L)) eqn:E.
-      - apply Nat.leb_le in E. eapply qsort_length; [| |exact EA]; lia.
-      - inversion EA. reflexivity. }
-    (* right part *)
-    set (p1 := length pre + length less).
-    set (right := length pre + S (length rest) - 1).
-    destruct (Nat.leb 2 (length geq)) eqn:E.
-    - apply Nat.leb_le in E.
-      assert (Nat.eqb p1 right = false) as -> by (apply Nat.eqb_neq; unfold p1, right; lia).
-      assert (Nat.eqb (S p1) right = false) as -> by (apply Nat.eqb_neq; unfold p1, right; lia).
-      replace (pre ++ a ++ p :: geq ++ post) with ((pre ++ a ++ [p]) ++ geq ++ post)
-        by (rewrite <- !app_assoc; reflexivity).
-      replace (S p1) with (length (pre ++ a ++ [p])) by (rewrite !app_length; cbn [length]; unfold p1; lia).
-      replace right with (length (pre ++ a ++ [p]) + length geq - 1)
-        by (rewrite !app_length; cbn [length]; unfold right; lia).
-      rewrite IH by lia.
-      destruct (qsort key f geq) as [b|]; cbn [option_map]; [|reflexivity].
-      rewrite <- !app_assoc. reflexivity.
-    - apply Nat.leb_gt in E.
-      assert ((if Nat.eqb p1 right then p1 else S p1) = right) as ->.
-      { destruct (Nat.eqb p1 right) eqn:E1; [apply Nat.eqb_eq in E1; exact E1|].
-        apply Nat.eqb_neq in E1. unfold p1, right in *. lia. }
-      rewrite Nat.eqb_refl. cbn [option_map]. rewrite <- !app_assoc. reflexivity.
+    (* sort(ptr1, right), whatever stands before the pivot (same number of nodes) *)
+    assert (HB : forall A, length A = length less ->
+               (if Nat.eqb p1' right then Some (pre ++ A ++ p :: geq ++ post, 0)
+                else qs_sort key f p1' right (pre ++ A ++ p :: geq ++ post))
+               = option_map (fun b => (pre ++ A ++ p :: b ++ post, dg))
+                   (if Nat.leb 2 (length geq) then qsort key f geq else Some geq)).
+    { intros A HA'. unfold dg, p1'. destruct (Nat.leb 2 (length geq)) eqn:E.
+      - apply Nat.leb_le in E.
+        assert (Nat.eqb p1 right = false) as -> by (apply Nat.eqb_neq; unfold p1, right; lia).
+        assert (Nat.eqb (S p1) right = false) as -> by (apply Nat.eqb_neq; unfold p1, right; lia).
+        replace (pre ++ A ++ p :: geq ++ post) with ((pre ++ A ++ [p]) ++ geq ++ post)
+          by (rewrite <- !app_assoc; reflexivity).
+        replace (S p1) with (length (pre ++ A ++ [p])) by (rewrite !app_length; cbn [length]; unfold p1; lia).
+        replace right with (length (pre ++ A ++ [p]) + length geq - 1)
+          by (rewrite !app_length; cbn [length]; unfold right; lia).
+        rewrite IH by lia.
+        destruct (qsort key f geq) as [b|]; cbn [option_map]; [|reflexivity].
+        rewrite <- !app_assoc. reflexivity.
+      - apply Nat.leb_gt in E.
+        assert ((if Nat.eqb p1 right then p1 else S p1) = right) as ->.
+        { destruct (Nat.eqb p1 right) eqn:E1; [apply Nat.eqb_eq in E1; exact E1|].
+          apply Nat.eqb_neq in E1. unfold p1, right in *. lia. }
+        rewrite Nat.eqb_refl. reflexivity. }
+    assert (E0 : Nat.eqb left p0 = negb (Nat.leb 2 (length L))).
+    { rewrite Hll. unfold left, p0. destruct (Nat.leb 2 (length less)) eqn:E; cbn [negb].
+      - apply Nat.leb_le in E. apply Nat.eqb_neq. lia.
+      - apply Nat.leb_gt in E. apply Nat.eqb_eq. lia. }
+    assert (E1 : Nat.eqb p1' right = negb (Nat.leb 2 (length geq))).
+    { unfold p1'. destruct (Nat.leb 2 (length geq)) eqn:E; cbn [negb].
+      - apply Nat.leb_le in E. destruct (Nat.eqb p1 right) eqn:E1; apply Nat.eqb_neq;
+          [apply Nat.eqb_eq in E1|apply Nat.eqb_neq in E1]; unfold p1, right in *; lia.
+      - apply Nat.leb_gt in E. destruct (Nat.eqb p1 right) eqn:E1;
+          [apply Nat.eqb_eq in E1|apply Nat.eqb_neq in E1]; apply Nat.eqb_eq; unfold p1, right in *; lia. }
+    cbv beta iota zeta. fold L. fold dl. fold dg. rewrite <- Hll.
+    destruct (Nat.ltb (length L) (length geq)) eqn:Eside.
+    - (* the left side is the shorter one: recursive call on it, then go on with the right side *)
+      rewrite (HA (geq ++ post)).
+      destruct (if Nat.leb 2 (length L) then qsort key f L else Some L) as [a|] eqn:EA; cbn [option_map].
+      2:{ reflexivity. }
+      assert (Hla : length a = length less).
+      { rewrite <- Hll. destruct (Nat.leb 2 (length L)) eqn:E.
+        - apply Nat.leb_le in E. eapply qsort_length; [| |exact EA]; lia.
+        - inversion EA. reflexivity. }
+      pose proof (HB a Hla) as HBa. rewrite E1 in HBa |- *.
+      destruct (Nat.leb 2 (length geq)) eqn:E; cbn [negb] in HBa |- *.
+      + rewrite HBa. destruct (qsort key f geq) as [b|]; cbn [option_map]; [|reflexivity].
+        rewrite <- !app_assoc. reflexivity.
+      + cbn [option_map]. unfold dg. rewrite Nat.max_0_r. rewrite <- !app_assoc. reflexivity.
+    - (* the right side is not longer: recursive call on it, then go on with the left side *)
+      rewrite (HB L Hll).
+      destruct (if Nat.leb 2 (length geq) then qsort key f geq else Some geq) as [b|] eqn:EB; cbn [option_map].
+      2:{ destruct (if Nat.leb 2 (length L) then qsort key f L else Some L); reflexivity. }
+      pose proof (HA (b ++ post)) as HAb. rewrite E0 in HAb |- *.
+      destruct (Nat.leb 2 (length L)) eqn:E; cbn [negb] in HAb |- *.
+      + rewrite HAb. destruct (qsort key f L) as [a|]; cbn [option_map]; [|reflexivity].
+        rewrite <- !app_assoc. reflexivity.
+      + cbn [option_map]. unfold dl. rewrite Nat.max_0_r. rewrite <- !app_assoc. reflexivity.
+  Qed.
+
+  (* the depth of the recursion is logarithmic: the side sorted by a recursive call has at most half
+     of the nodes *)
+  Lemma pow_max a b n : 2 ^ a <= n -> 2 ^ b <= n -> 2 ^ Nat.max a b <= n.
+  Proof. intros Ha Hb. destruct (Nat.max_spec a b) as [[_ ->]|[_ ->]]; assumption. Qed.
+
+  Lemma qdepth_log : forall fuel l, 2 <= length l -> length l <= fuel -> 2 ^ qdepth key fuel l <= length l.
+  Proof.
+    induction fuel as [|f IH]; intros l H2 Hf; [lia|].
+    destruct l as [|p [|y rest']]; cbn [length] in H2; try lia.
+    rewrite qdepth_unfold. remember (y :: rest') as rest eqn:Hrest.
+    assert (Hrl : length rest = S (length rest')) by (subst rest; reflexivity).
+    rewrite part_part_l. cbn [rev app].
+    destruct (part_l p [] [] rest) as [less geq] eqn:Hpart.
+    pose proof (part_l_length _ _ _ _ _ _ Hpart) as Hlen. cbn [length] in Hlen.
+    assert (Hll : length (left_of (rev less)) = length less).
+    { rewrite (Permutation_length (left_of_perm (rev less))). apply rev_length. }
+    cbv beta iota zeta. set (L := left_of (rev less)) in *.
+    cbn [length] in Hf |- *.
+    assert (DL : 2 <= length L -> 2 ^ qdepth key f L <= length L) by (intros; apply IH; lia).
+    assert (DG : 2 <= length geq -> 2 ^ qdepth key f geq <= length geq) by (intros; apply IH; lia).
+    destruct (Nat.leb 2 (length L)) eqn:E1; [apply Nat.leb_le in E1; specialize (DL E1)|apply Nat.leb_gt in E1; clear DL];
+      (destruct (Nat.leb 2 (length geq)) eqn:E2; [apply Nat.leb_le in E2; specialize (DG E2)|apply Nat.leb_gt in E2; clear DG]);
+      (destruct (Nat.ltb (length L) (length geq)) eqn:E3; [apply Nat.ltb_lt in E3|apply Nat.ltb_ge in E3]);
+      apply pow_max; rewrite ?Nat.pow_succ_r', ?Nat.pow_0_r; lia.
+  Qed.
+
+  Lemma sort_ptr_depth_log (l : list Z) r d : 2 <= length l ->
+      qs_sort key (length l) 0 (length l - 1) l = Some (r, d) -> 2 ^ d <= length l.
+  Proof.
+    intros E H. pose proof (qs_sort_refines (length l) [] l [] E (le_n _)) as R.
+    cbn [length app] in R. rewrite app_nil_r in R. cbn [Nat.add] in R. rewrite R in H.
+    destruct (qsort key (length l) l) as [r'|]; cbn [option_map] in H; [|discriminate].
+    injection H as _ <-. apply qdepth_log; lia.
   Qed.
 
   Lemma sort_ptr_is_sort_vals (l : list Z) : sort_ptr key l = sort_vals key l.
